@@ -67,14 +67,18 @@ def run_case(case, ctx):
     ctx.cls(f"p{p}|int{len(ref.distinct(U)) - 2}|maxmult{maxm}|{kind}|{nt}")
     ctx.mark_nontrivial(p >= 1 or maxm > 1 or W is not None)
     Un = lib.nums(U, nt)
-    o = call(Function, Un)
+    Uarg = lib.container(Un, ["list", "oarray", "tuple"][len(Un) % 3])
+    o = call(Function, Uarg)
     if not ctx.check(o.ok, f"construct:{o.exc_name}", f"Function(valid vector) raised {o.brief()}"):
         return
     f = o.value
+    lib.scribble(Uarg)  # the caller's own sequences are not the function's state
     if W is not None:
-        o = call(setattr, f, "weights", lib.nums(W, nt))
+        Warg = lib.container(lib.nums(W, nt), ["oarray", "list"][len(W) % 2])
+        o = call(setattr, f, "weights", Warg)
         if not ctx.check(o.ok, f"weights:{o.exc_name}", f"positive weights rejected: {o.brief()}"):
             return
+        lib.scribble(Warg)
     Uq = [ref.fr(x) for x in Un]
     Wq = None if W is None else [lib.exact_image(w, nt) for w in W]
     params = lib.dec(case["params"])
